@@ -8,6 +8,11 @@ import (
 	"strings"
 )
 
+// cueNullBranchStyle switches the spelling of a nullable member: "first" (default: `null | T`, with a
+// default `null | T | *v`) or "mixed" (chosen by hash per member: `null | T | *v`, `T | *v | null`, and for
+// plain types `*v | T | null`). In every spelling the default mark sits on the disjunction.
+var cueNullBranchStyle = "first"
+
 type cueRenderer struct {
 	nullableCtx bool
 	d           *Defs
@@ -268,10 +273,16 @@ func (r *cueRenderer) field(f Field, indent string) string {
 		case f.Ty.Kind == SOneOfScalars || f.Ty.Kind == SRef || f.Ty.Kind == SArray || f.Ty.Kind == SStruct:
 			expr = expr + " | *" + dv
 		default:
+			if f.Nullable && cueNullBranchStyle == "mixed" && (fnv32(f.Name+"\x00"+expr)>>8)%3 == 2 {
+				return label + ": *" + dv + " | " + expr + " | null" + attr
+			}
 			expr = expr + " | *" + dv
 		}
 	}
 	if f.Nullable {
+		if cueNullBranchStyle == "mixed" && (fnv32(f.Name+"\x00"+expr)>>8)%3 == 1 {
+			return label + ": " + expr + " | null" + attr
+		}
 		expr = "null | " + expr
 	}
 	return label + ": " + expr + attr
